@@ -184,6 +184,7 @@ func c15(c *core.Ctx) string {
 
 	c.Rule("R-C15-5", "every live session has a resend loop: each function that builds a Session starts `go s.backgroundResendPending()` on every path that returns the session (or each of its direct callers does so for the returned session)")
 	c.Rule("R-C15-6", "a registered client is removed from the broker's client table only when it is known to be disconnected (or has just been closed, or no entry exists): a live connection must stay addressable for delivery")
+	c.Rule("R-C15-7", "a resend loop never outlives its session's registration under the client id: a session is stored into the session table only on paths on which the entry is absent or the previous session is nil or has been closed (in the storing function or at its call sites), and a session taken out of the table is closed")
 	e := c15resolve(c)
 	if e == nil {
 		return "anchors of the MQTT delivery path could not be resolved"
@@ -194,5 +195,6 @@ func c15(c *core.Ctx) string {
 	c15ResendLoop(e)
 	c15Registry(e)
 	c15QueueWriters(e)
+	c15Ownership(e)
 	return "Static shape rules on the MQTT delivery path (anchors resolved by role, helpers followed by reach + inlining): the fan-out loop cannot be left early and publishes iff subQoS >= qos and the client is connected (path-sensitive, all paths of the delivery loop); QoS1 pending bookkeeping precedes the write under the session lock; PUBACK carries the incoming id; handler order limiter→pipeline→process. Not decided: socket delivery, retransmission timing, queue-full drops."
 }
